@@ -349,7 +349,7 @@ class GCXS(SparseArray, NDArrayOperatorsMixin):
     __getitem__ = getitem
 
     def _reduce_calc(self, method, axis, keepdims=False, **kwargs):
-        if axis[0] is None or np.array_equal(axis, np.arange(self.ndim, dtype=np.intp)):
+        if axis[0] is None or np.array_equal(np.sort(axis), np.arange(self.ndim, dtype=np.intp)):
             x = self.flatten().tocoo()
             out = x.reduce(method, axis=None, keepdims=keepdims, **kwargs)
             if keepdims:
